@@ -8,11 +8,11 @@ import miros.activeobject as ao_mod
 CODES = H.QUEUE_CORE + ["ActiveObject.__post_event", "ActiveObject.cancel_event"]
 
 
-def expected_instants(period, times, deferred, horizon):
+def expected_instants(period, times, deferred, horizon, at=0.0):
     out = []
     k = 1 if deferred else 0
     while True:
-        t = period * k
+        t = at + period * k
         if t > horizon + 1e-9:
             break
         if times != 0 and len(out) >= times:
@@ -61,6 +61,10 @@ class TimedHarness:
         w0 = s.steps
         ids, raised = [], []
         for i, src in enumerate(p["sources"]):
+            if src.get("at"):       # a source started later: the caller sleeps until that virtual instant
+                d = src["at"] - s.now
+                if d > 0:
+                    sched.VTime.sleep(d)
             e = Event(signal=src["sig"], payload="s%d" % i)
             try:
                 f = ao.post_fifo if src.get("kind", "fifo") == "fifo" else ao.post_lifo
@@ -96,7 +100,7 @@ def schedule_violations(pid, p, o, cancelled=(), rejected=()):
             continue
         lab = "%s/s%d" % (src["sig"], i)
         mine = [(st, now, op) for (st, now, op, l) in o["appends"] if l == lab]
-        want = expected_instants(src["period"], src["times"], src["deferred"], H_)
+        want = expected_instants(src["period"], src["times"], src["deferred"], H_, src.get("at", 0.0))
         got = [now for (_, now, _) in mine]
         wop = "append" if src.get("kind", "fifo") == "fifo" else "appendleft"
         if o.get("latency"):
